@@ -538,7 +538,23 @@ func runC07(c *core.Ctx) {
 			}
 		}
 	}
-	c.R.Bound = fmt.Sprintf("%d documents x 6 layouts (mutated documents: 2 layouts); single faults, single defects, all truncations and token deletions", len(docs))
+	// string content: every string of <= 2 runes over the rune classes a JSON writer may treat differently, carried into the
+	// response as data (echoed back) and inside an error message (rejected as an enum value)
+	for _, a := range c18Runes {
+		strs := []string{string(a)}
+		for _, b := range c18Runes {
+			strs = append(strs, string([]rune{a, b}))
+		}
+		for _, str := range strs {
+			if c.Expired() {
+				completed = false
+				break
+			}
+			run(&c07Req{Kind: "string-content:data", Text: "query Q($v: String!) { echo(s: $v, b: true) a { echo(s: $v) } }", Op: "Q", Vars: map[string]interface{}{"v": str}})
+			run(&c07Req{Kind: "string-content:error", Text: "query Q($v: Color) { pick(e: $v) }", Op: "Q", Vars: map[string]interface{}{"v": str}})
+		}
+	}
+	c.R.Bound = fmt.Sprintf("%d documents x 6 layouts (mutated documents: 2 layouts); strings <= 2 runes over %d runes as data and in error messages; single faults, single defects, all truncations and token deletions", len(docs), len(c18Runes))
 	if !completed {
 		c.Cap("deadline reached")
 	}
